@@ -234,6 +234,14 @@ def epilogueSmp (s : Sample) (x : Xtra) : Sample × Xtra :=
     ({ s with fsloop := false, fsloopBidir := false }, { sus := 0, sue := 0 })
   else (s, { sus := sus, sue := sue })
 
+/-- one iteration of the sustain-loop `for`: the sample side … -/
+def smpStepS (smp : Int) (xtra : List Xtra) (i : Nat) (s : Sample) : Sample :=
+  if (i : Int) < smp then (match xtra[i]? with | some x => (epilogueSmp s x).1 | none => s) else s
+
+/-- … and the `m->xtra[i]` side -/
+def smpStepX (smp : Int) (xxs : List Sample) (i : Nat) (x : Xtra) : Xtra :=
+  if (i : Int) < smp then (match xxs[i]? with | some s => (epilogueSmp s x).2 | none => x) else x
+
 def epilogue (m : Module) : Module :=
   let len := clampC m.len 0 xmpMaxModLength
   let pat := clampC m.pat 0 epiPatMax
@@ -244,10 +252,8 @@ def epilogue (m : Module) : Module :=
   let spd := if m.spd ≤ 0 ∨ m.spd > (epiSpdMax : Int) then (epiSpdDefault : Int) else m.spd
   let bpm := clampC m.bpm xmpMinBpm epiBpmMax
   let xxi := m.xxi.mapIdx fun i x => if (i : Int) < ins then epilogueIns m.volbase m.insvol x else x
-  let xxs := m.xxs.mapIdx fun i s =>
-    if (i : Int) < smp then (match m.xtra[i]? with | some x => (epilogueSmp s x).1 | none => s) else s
-  let xtra := m.xtra.mapIdx fun i x =>
-    if (i : Int) < smp then (match m.xxs[i]? with | some s => (epilogueSmp s x).2 | none => x) else x
+  let xxs := m.xxs.mapIdx (smpStepS smp m.xtra)
+  let xtra := m.xtra.mapIdx (smpStepX smp m.xxs)
   { m with
     gvl := m.gvol, len := len, pat := pat, ins := ins, smp := smp, chn := chn
     rst := rst, spd := spd, bpm := bpm, xxi := xxi, xxs := xxs, xtra := xtra }
@@ -518,7 +524,7 @@ def wfClauses (m : Module) : List (String × Bool) :=
     ("samples", samplesOK m), ("envelopes", envelopesOK m), ("names", namesOK m), ("rst", rstOK m),
     ("spd", spdOK m), ("bpm", bpmOK m), ("sequences", sequencesOK m), ("sequence_control", seqCtlOK m),
     ("channels", channelsOK m), ("orders", ordersOK m), ("sustain", sustainOK m),
-    ("envelopes_upper", envelopesUpperOK m) ]
+    ("envelopes_upper", envelopesUpperOK m), ("rst_upper", rstUpperOK m) ]
 
 def WF (m : Module) : Bool := (wfClauses m).all (·.2)
 
